@@ -33,12 +33,19 @@ def build_cases(tier, seed):
         for p in shapes.sample(shapes.general_program(size, depth=2 if size < 9 else 3), int(big * share), seed * 7919 + size):
             k += 1
             add(p, 'seeded-s%d-%d' % (size, k))
+    # loops in loops (and in routines) with breaks at symbolic positions, on varying populations
+    for pop, p in shapes.sample(shapes.loop_program(None, nest=True, in_routine=True), 120 if tier == 'quick' else 2500, seed * 13 + 3):
+        k += 1
+        text = R.render(p)
+        if text not in seen:
+            seen.add(text)
+            cases.append(scripth.Case(p, specs=shapes.POPULATIONS[pop], tag='loops-%d[%s]' % (k, pop), vm_steps=2500, ref_steps=900))
     if tier == 'thorough':
         for p in shapes.sample(shapes.general_program(3, depth=2, vocab='core'), 5000, seed + 17):
             k += 1
             add(p, 'core-s3-%d' % k)
     return cases, {'core_exhaustive_S<=2': n_core, 'full_vocab_S=1': n_full1,
-                   'seeded_or_sampled': len(cases) - n_core - n_full1}
+                   'seeded_or_sampled': len(cases) - n_core - n_full1, 'of_which_nested_loop_shapes': 120 if tier == 'quick' else 2500}
 
 
 def run(tier, seed):
